@@ -63,5 +63,12 @@ for grp in payload['groups']:
                             parts.append([p, f, [o.id for o in getattr(plain, kind)(f, p)]])
                     rec['parts'][kind] = parts
                 g['search'].append(rec)
+            # the same searches with the default normalizer: the normalised retry happens only when no proposal found
+            # anything, and looks each proposal up under the proposal's own part of speech
+            nw = wn.Wordnet('mlex:1', lemmatizer=m)
+            for form, pos in grp['search_queries']:
+                proposed = m(form, pos) or {pos: {form}}
+                g.setdefault('search_norm', []).append({'which': which, 'form': form, 'pos': pos, 'proposed': canon(proposed),
+                                                         'got': [o.id for o in nw.words(form, pos)]})
     out.append(g)
 json.dump(out, sys.stdout)
